@@ -2,6 +2,7 @@ import UrcuVerif.Src.CallRcuLocal
 import UrcuVerif.Src.CallRcuRefine
 import UrcuVerif.Src.CallRcuHelper
 import UrcuVerif.Src.CallRcuLoop
+import UrcuVerif.Src.CallRcuBarrier
 /-!
 # Source refinement, call_rcu: generated IR of `src/urcu-call-rcu-impl.h` ⊑ L2 (`CallRcu/Model.lean`), thread-locally
 
@@ -272,5 +273,45 @@ example : ∃ out, exec 3 «call_rcu_thread» thrEnv
     «___cds_wfcq_first_blocking», «___cds_wfcq_first», «___cds_wfcq_node_sync_next»,
     «___cds_wfcq_next_blocking», «___cds_wfcq_next», thrEnv, iterate, nd, tmpH]
   decide
+
+-- ==========================================================================================================
+-- rcu_barrier: the marker callback (C04, completion counting and reference counting)
+-- ==========================================================================================================
+
+/-- marker callback: a local step with the global state's values is the L2 step of `CallRcu/Barrier.lean`
+(`mSub`, `mLdFut`, `mStFut`, `mWake`, `mPut`); `release` is due exactly when L2 marks the completion freed -/
+theorem marker_lift_step (c : Cfg) (s : BState) (h b h' : Nat) (ls ls' : CallRcuB.LState) (l : CallRcuB.LLabel)
+    (hm : s.mrun h = some (b, h')) (hpc : ls.pc = s.mpc h) (ho : CallRcuB.Obs s b l)
+    (hs : CallRcuB.lstep ls l = some ls') :
+    ∃ s', brun c s (CallRcuB.toL2 h l) = some s' ∧ ls'.pc = s'.mpc h ∧ s'.mrun h = some (b, h') ∧
+      (∀ r, l = .put r → s.bfreed b = false → (ls'.rel = true ↔ s'.bfreed b = true)) :=
+  CallRcuB.lift_step c s h b h' ls ls' l hm hpc ho hs
+
+/-- `_rcu_barrier_complete(head)`: `uatomic_sub_return(&completion->barrier_count, 1)` (`mSub`), the wake-up of the
+caller iff the count reached zero, `urcu_ref_put` (`mPut`), `free_completion` iff the reference count reached zero,
+`free(work)` last -/
+theorem _rcu_barrier_complete_refines (fuel : Nat) (env : Env) (inp : List Val) (B W : Src.Loc) (r v : Int) (w : Nat)
+    (res : Int) (h1 : env.vars "head" = some (.ptr (.field W "head")))
+    (h2 : env.priv (.field W "completion") = some (.ptr B)) (hF : CallRcuB.Follows (CallRcuB.cplSpec r v w res) inp) :
+    ∃ out, exec fuel «_rcu_barrier_complete» env inp = .ok out ∧
+      ∃ ls', CallRcuB.lrun ⟨.idle, false⟩ (out.events.flatMap (CallRcuB.absB B W)) = some ls' ∧
+        (out.ctl = .blocked ∨ (out.ctl = .normal ∧ ls' = ⟨.fin, false⟩)) :=
+  CallRcuB.complete_refines fuel env inp B W r v w res h1 h2 hF
+
+/-- last marker of a barrier whose caller sleeps and has already dropped its reference: count → 0, futex -1 → 0,
+FUTEX_WAKE, reference → 0, `free_completion`, `free(work)` -/
+example : ∃ out, exec 0 «_rcu_barrier_complete»
+      (envOf [("head", .ptr (.field (.obj 200) "head"))] [(.field (.obj 200) "completion", .ptr (.obj 300))])
+      [.int 0, .int (-1), .int 1, .int 0, .int 0, .int 0] = .ok out ∧ out.events.length = 8 ∧ out.ctl = .normal ∧
+    CallRcuB.lrun ⟨.idle, false⟩ (out.events.flatMap (CallRcuB.absB (.obj 300) (.obj 200))) = some ⟨.fin, false⟩ := by
+  sexec [«_rcu_barrier_complete», «call_rcu_completion_wake_up», «urcu_ref_put», envOf, List.lookup]
+  decide
+
+/-- `free_completion(ref)` frees the completion that contains `ref` -/
+theorem free_completion_refines (fuel : Nat) (env : Env) (B : Src.Loc) (x : Val) (rest : List Val)
+    (h1 : env.vars "ref" = some (.ptr (.field B "ref"))) :
+    ∃ out, exec fuel «free_completion» env (x :: rest) = .ok out ∧ out.events = [.ext "free" [.ptr B] x] ∧
+      out.ctl = .normal :=
+  CallRcuB.free_completion_exec fuel env B x rest h1
 
 end UrcuVerif.Props.SrcCallRcu
